@@ -154,7 +154,13 @@ def resolve_local_links(
             fspath = root / Path(*path.split("/")[1:])
         else:
             fspath = source.parent / Path(*path.split("/"))
-        fspath = fspath.resolve()
+        try:
+            fspath = fspath.resolve()
+        except ValueError:
+            # E.g. an (encoded) null character: cannot name any file
+            raise LinkToNonExistentFileError(
+                f"{source} contains a link to non-existent file: {url}"
+            )
 
         # Work out where on the website this points
         website_path: str
@@ -299,7 +305,13 @@ def embed_local_links_as_data_urls(
             fspath = root / Path(*path.split("/")[1:])
         else:
             fspath = source.parent / Path(*path.split("/"))
-        fspath = fspath.resolve()
+        try:
+            fspath = fspath.resolve()
+        except ValueError:
+            # E.g. an (encoded) null character: cannot name any file
+            raise LinkToNonExistentFileError(
+                f"{source} contains a link to non-existent file: {url}"
+            )
 
         # Verify that the local file exists and is not outside the source
         # root
